@@ -446,6 +446,32 @@ def structured_cases(ctx):
                            time_zone_hour=t_off[0], time_zone_minute=t_off[1])
                 yield {"op": "add", "order": "t+p" if k % 2 else "p+t",
                        "t": tkw, "p": pkw, "t_zone": list(t_off)}
+    # t in a zone hours away from p's: reading p in t's zone steps back (or
+    # forward) over the end of February of leap and common years
+    for y in (2024, 2000, 2023, 1900):
+        mar1 = R.ymd_to_rd(MODE, y, 3, 1)
+        for p_off, t_off in (((5, 0), (0, 0)), ((0, 0), (-5, 0)),
+                             ((-4, 0), (2, 0)), ((0, 0), (9, 30))):
+            for sod in (2 * 3600 + 1800, 23 * 3600):
+                for rep in gen.REPS:
+                    for tkw in ({"hour_of_day": 22}, {"day_of_month": 1,
+                                                      "hour_of_day": 0},
+                                {"day_of_month": 29}):
+                        k += 1
+                        if not ctx.mine(k):
+                            continue
+                        rd = mar1 if sod < 43200 else mar1 - 1
+                        pkw = gen.date_kwargs(MODE, rep, rd)
+                        pkw.update({"hour_of_day": sod // 3600,
+                                    "minute_of_hour": sod % 3600 // 60,
+                                    "second_of_minute": 0})
+                        pkw.update(gen.zone_kwargs(p_off))
+                        t = dict(tkw, truncated=True,
+                                 time_zone_hour=t_off[0],
+                                 time_zone_minute=t_off[1])
+                        yield {"op": "add", "order": "t+p" if k % 2
+                               else "p+t", "t": t, "p": pkw,
+                               "t_zone": list(t_off)}
     # the end of February in year 0 (a leap year whose number is falsy), 4
     # and 1 (the first common year), every representation
     for y in (0, 4, 1):
